@@ -188,6 +188,7 @@ C07 == O!C07
 C08 == O!C08
 C08Range == cfg.checkRange => O!C08Range
 C08Done == O!C08Done
+C04Frozen == cfg.checkRange => O!C04Frozen
 C18 == O!C18
 C18Finish == O!C18Finish
 C19 == O!C19
